@@ -139,10 +139,13 @@ func (x *extractor) genExprs() {
 		}
 	}
 	if fd := findFunc(api, "", "firstLine"); fd != nil {
+		// the whole (five-line) body, normalised: the Lean definition `firstLine` is a transcription of exactly this
+		put("firstLine.body", strings.Join(strings.Fields(stmtString(api.Fset, fd.Body)), " "))
 		ast.Inspect(fd.Body, func(n ast.Node) bool {
 			if c, ok := n.(*ast.CallExpr); ok && strings.Contains(exprString(api.Fset, c.Fun), "IndexAny") && len(c.Args) == 2 {
 				if tv, ok := api.TypesInfo.Types[c.Args[1]]; ok && tv.Value != nil && tv.Value.Kind() == constant.String {
 					put("firstLine.cutset", constant.StringVal(tv.Value))
+					put("firstLine.scanned", exprString(api.Fset, c.Args[0]))
 				}
 			}
 			if r, ok := n.(*ast.ReturnStmt); ok && len(r.Results) == 1 {
